@@ -512,7 +512,8 @@ namespace BitSerializer::Convert::Detail
 		SafeAddDuration(tp, std::chrono::seconds(time));
 		if (utc.SecFractions) {
 			// Only seconds fractions can be rounded to target timepoint type
-			SafeAddDuration(tp, std::chrono::round<TDuration>(utc.SecFractions.value()));
+			// (rounded in 64-bit units of the target period, the range of a narrower representation is checked by SafeAddDuration)
+			SafeAddDuration(tp, std::chrono::round<std::chrono::duration<int64_t, typename TDuration::period>>(utc.SecFractions.value()));
 		}
 		SafeAddDuration(tp, std::chrono::duration<int64_t, std::ratio<86400>>(days));
 		out = tp;
@@ -637,7 +638,8 @@ namespace BitSerializer::Convert::Detail
 									throw std::invalid_argument("Input ISO duration has fractions in the non-seconds part");
 								}
 							}
-							SafeAddDuration(duration, std::chrono::round<TTargetDuration>(isNegative ? -ns : ns));
+							// Rounded in 64-bit units of the target period, the range of a narrower representation is checked by SafeAddDuration
+							SafeAddDuration(duration, std::chrono::round<std::chrono::duration<int64_t, typename TTargetDuration::period>>(isNegative ? -ns : ns));
 						}
 
 						if (isNegative)
